@@ -848,17 +848,20 @@ func (vc *VC) makeInterface(st *State, x *SV, it types.Type) *SV {
 	if isInterface(t) {
 		return &SV{T: it, C: x.C, Cands: x.Cands, Exact: x.Exact}
 	}
-	// box
+	// box (the payload is also remembered so that an unbox in the same VC needs no heap read)
 	ref := vc.allocRaw(st, "box")
 	l := layout(t)
 	for i, s := range l {
 		h := s.heap()
 		st.H[h] = vc.def(heapSort(s), sto2(st.H[h], ref, bvLit(64, int64(i)), x.C[i]), h)
 	}
-	return &SV{T: it, C: []string{tid, ref, bvLit(64, 0)}, Cands: []types.Type{t}, Exact: true}
+	return &SV{T: it, C: []string{tid, ref, bvLit(64, 0)}, Cands: []types.Type{t}, Exact: true, Boxed: x}
 }
 
 func (vc *VC) unbox(st *State, x *SV, t types.Type) *SV {
+	if x.Boxed != nil && x.Exact && len(x.Cands) == 1 && types.Identical(x.Cands[0], t) {
+		return x.Boxed
+	}
 	if isPointerLike(t) {
 		return &SV{T: t, C: []string{x.C[1], x.C[2]}, Sub: x.Sub}
 	}
@@ -912,7 +915,25 @@ func (vc *VC) typeAssert(f *Frame, n *Node, in *ssa.TypeAssert) *SV {
 	var ok string
 	var val *SV
 	if it, isI := at.Underlying().(*types.Interface); isI {
-		ok = vc.def("Bool", vc.implements(x, it, at.String()), "ok")
+		if !x.Exact && len(x.Cands) == 0 && isAtom(x.C[0]) && it.NumMethods() > 0 {
+			// opaque dynamic type: decided by a VC-level case split, so that no
+			// control-flow merge over the two dispatch alternatives is needed
+			key := x.C[0] + " implements " + at.String()
+			d, have := vc.decisions[key]
+			if !have {
+				panic(needDecision{key})
+			}
+			p := vc.uf("implements_"+sanitize(at.String()), SBool, STid)
+			if d {
+				vc.assume(and(app(p, x.C[0]), not(eq(x.C[0], bvLit(tidBits, 0)))))
+				ok = "true"
+			} else {
+				vc.assume(not(app(p, x.C[0])))
+				ok = "false"
+			}
+		} else {
+			ok = vc.def("Bool", vc.implements(x, it, at.String()), "ok")
+		}
 		val = &SV{T: at, C: x.C, Cands: x.Cands, Exact: x.Exact, Sub: x.Sub}
 	} else {
 		ok = vc.def("Bool", eq(x.C[0], vc.eng.typeID(at)), "ok")
@@ -932,6 +953,8 @@ func (vc *VC) typeAssert(f *Frame, n *Node, in *ssa.TypeAssert) *SV {
 	tup := &SV{T: in.Type(), Sub: []*SV{out, {T: types.Typ[types.Bool], C: []string{ok}}}}
 	return tup
 }
+
+type needDecision struct{ key string }
 
 func (vc *VC) panicAt(f *Frame, n *Node, in *ssa.Panic) {
 	if f.depth == 0 && f.panicsC != "" {
@@ -956,3 +979,5 @@ func (vc *VC) heapEqOld(old, cur *State, s Sort) string {
 	h := s.heap()
 	return fmt.Sprintf("(forall ((r!q (_ BitVec 32))) (=> (bvult r!q %s) (= (select %s r!q) (select %s r!q))))", old.H["next"], cur.H[h], old.H[h])
 }
+
+func (n needDecision) Error() string { return "need decision: " + n.key }
